@@ -323,6 +323,9 @@ Definition apply_format (o : orc) (f : string) (v : jvalue) : bool :=
     match v with JArr l => forallb (fun x => match x with JStr s => otrue (fmt_ok o "httpmethod" s) | _ => false end) l | _ => true end
   else if String.eqb f "ipcidr-array" then
     match v with JArr l => forallb (fun x => match x with JStr s => otrue (fmt_ok o "ipcidr" s) | _ => false end) l | _ => true end
+  else if String.eqb f "duration" then
+    (* time.ParseDuration: the same oracle column the run-time model reads ([dur_ns]) *)
+    match v with JStr s => match dur_ns o s with Some _ => true | None => false end | _ => false end
   else if custom_format f then match v with JStr s => otrue (fmt_ok o f s) | _ => false end
   else true.
 
@@ -490,10 +493,11 @@ Definition period_ns (o : orc) (p : jvalue) : option Z :=
   let d := sget "limitRefreshPeriod" p in
   if str_empty d then Some 10000000 else dur_ns o d.
 
-(* the proposed fix (quirk 2 off): Spec.Validate rejects a non-positive limitRefreshPeriod *)
+(* the repair (quirk 2 off): Spec.Validate rejects a limitRefreshPeriod that parses to a non-positive
+   duration; one that does not parse is left to the format check *)
 Definition rl_periods_positive (o : orc) (g : jvalue) : bool :=
   forallb (fun p => if is_null p then true else
-             match period_ns o p with Some d => 0 <? d | None => false end) (aget "policies" g).
+             match period_ns o p with Some d => 0 <? d | None => true end) (aget "policies" g).
 
 (** validator.Spec.Validate never fails for a named filter (spec == Spec{} needs an empty name);
     httpheader.ValueValidator.Validate: values or regexp *)
